@@ -99,7 +99,11 @@ fn gen_tera(rng: &mut Rng, out: &mut dyn Write, thorough: bool) {
             writeln!(out, "{} {}", op, v.join(",")).unwrap();
         }
     }
-    let n = if thorough { 20_000 } else { 600 };
+    gen_tera_random(rng, out, if thorough { 20_000 } else { 600 });
+}
+
+/// random terrain cases: 2 of 5 are `tera_parse`
+fn gen_tera_random(rng: &mut Rng, out: &mut dyn Write, n: usize) {
     for i in 0..n {
         let cnt = match rng.below(12) {
             0 => 0,
@@ -1132,6 +1136,46 @@ fn gen_skel_any(rng: &mut Rng, out: &mut dyn Write, n: usize) {
     }
 }
 
+/// family `mut`: every line an ordinary generator wrote into `lines` whose op is `op`, kept with
+/// probability `num/den`, as `mut <seed> <k> <line>` — the Lean driver damages `k` = 1..3 bytes of the
+/// encoded file at positions drawn from `<seed>` and answers with the model of the code on the damaged file
+fn emit_mut(rng: &mut Rng, out: &mut dyn Write, lines: &[u8], op: &str, num: u64, den: u64) {
+    for line in std::str::from_utf8(lines).unwrap().lines() {
+        if line.split(' ').next() != Some(op) || !rng.chance(num, den) {
+            continue;
+        }
+        writeln!(out, "mut {} {} {}", rng.next() >> 1, rng.range(1, 3), line).unwrap();
+    }
+}
+
+/// damaged encodings of the single-file ops (`cmp`, `tera_parse`, `layer_parse`, `pbd`, `pbdl`, `skelstd`,
+/// `skel`), derived from the ordinary generators; the queries of a `pbd` case are kept
+fn gen_mut(seed: u64, out: &mut dyn Write, thorough: bool) {
+    // independent streams: one for the ordinary generators, one for the choice of lines and damage seeds
+    let mut g = Rng::new(seed, "C16-mut-gen");
+    let mut rng = Rng::new(seed, "C16-mut");
+    let x = if thorough { 100 } else { 1 };
+    let mut buf: Vec<u8> = Vec::new();
+    gen_cmp(&mut g, &mut buf, if thorough { 1000 } else { 20 });
+    emit_mut(&mut rng, out, &buf, "cmp", 1, 1);
+    buf.clear();
+    gen_tera_random(&mut g, &mut buf, 200 * x);
+    emit_mut(&mut rng, out, &buf, "tera_parse", 1, 1);
+    buf.clear();
+    gen_layer(&mut g, &mut buf, 240 * x);
+    emit_mut(&mut rng, out, &buf, "layer_parse", 1, 1);
+    buf.clear();
+    gen_pbd(&mut g, &mut buf, 16 * x);
+    emit_mut(&mut rng, out, &buf, "pbd", 1, 2);
+    emit_mut(&mut rng, out, &buf, "pbdl", 1, 1);
+    buf.clear();
+    gen_skel_std(&mut g, &mut buf, 50 * x);
+    emit_mut(&mut rng, out, &buf, "skelstd", 1, 1);
+    buf.clear();
+    gen_skel_any(&mut g, &mut buf, 100 * x);
+    emit_mut(&mut rng, out, &buf, "skel", 1, 1);
+}
+
 pub fn generate(thorough: bool, seed: u64, out: &mut dyn Write) {
     let mut rng = Rng::new(seed, "C16");
     gen_cmp(&mut rng, out, if thorough { 1500 } else { 40 });
@@ -1142,6 +1186,7 @@ pub fn generate(thorough: bool, seed: u64, out: &mut dyn Write) {
     let mut rng = Rng::new(seed, "C16-skel");
     gen_skel_std(&mut rng, out, if thorough { 4000 } else { 150 });
     gen_skel_any(&mut rng, out, if thorough { 20_000 } else { 600 });
+    gen_mut(seed, out, thorough);
 }
 
 // ------------------------------------------------------------------------------------------
